@@ -241,7 +241,7 @@ def run_siblings(args):
     fmt = args["fmt"]
     base = args.get("doc")
     if base is None:
-        base = docs.gen_dfxp(rng, nlangs=1) if fmt == "dfxp" else docs.gen_sami(rng)
+        base = docs.gen_dfxp(rng, nlangs=1, referential=bool(args.get("referential"))) if fmt == "dfxp" else docs.gen_sami(rng)
     cls = docs.READER_OF[fmt]
     if fmt == "sami" and "color:" not in base.lower():
         base = base.replace("-->", ".Tint {color: white;}\n-->", 1)
